@@ -75,6 +75,19 @@ class Replayer:
                 self.dbobj = ReferenceDatabase.load_from_dir(self.db)
                 self.session = self.dbobj.session
                 return 'ok', ''
+            if c in ('lib_load_ctx', 'lib_load_ctx_engine_first'):
+                # the command line's own way to the database: its context object, whose engine and session maker are created lazily
+                from types import SimpleNamespace
+                from gambit.cli.common import CLIContext
+                cc = CLIContext(SimpleNamespace(params=dict(db_path=self.db)))
+                if c == 'lib_load_ctx_engine_first':
+                    with cc.engine.connect() as con:          # somebody looks at the raw engine first (as `gambit debug shell` allows)
+                        con.exec_driver_sql('SELECT count(*) FROM genomes').fetchall()
+                else:
+                    cc.Session
+                self.dbobj = cc.get_database()
+                self.session = self.dbobj.session
+                return 'ok', ''
             if c in ('lib_other_rw_reader', 'lib_other_ro_reader'):
                 from gambit.db.sqla import file_sessionmaker
                 import glob as _g
@@ -230,6 +243,8 @@ def run(ctx):
             ['lib_other_ro_reader', 'lib_other_rw_reader', 'lib_load', 'lib_delete', 'lib_flush', 'lib_begin_block', 'lib_close', 'lib_load', 'lib_add', 'lib_commit'],
             ['lib_load', 'lib_delete', 'lib_flush', 'lib_begin_block', 'lib_query', 'lib_close'],
             ['lib_load', 'lib_query', 'lib_bulk_update', 'lib_commit', 'lib_flush', 'lib_close', 'cli_query'],
+            ['lib_load_ctx_engine_first', 'lib_edit', 'lib_flush', 'lib_commit', 'lib_query', 'lib_close'],
+            ['lib_load_ctx', 'lib_delete', 'lib_flush', 'lib_commit', 'lib_close', 'lib_load_ctx_engine_first', 'lib_add', 'lib_query', 'lib_begin_block', 'lib_close'],
             ['lib_load', 'lib_execute_update', 'lib_begin_block', 'cli_query', 'lib_rollback', 'lib_bulk_update', 'lib_close', 'lib_load', 'lib_query', 'lib_close'],
             ['lib_load', 'lib_edit', 'lib_flush', 'lib_commit', 'lib_query', 'lib_rollback', 'lib_read_sigs', 'lib_close'],
             ['lib_load', 'lib_add', 'lib_query', 'lib_commit', 'lib_begin_block', 'lib_close', 'cli_query'],
@@ -318,7 +333,7 @@ def expect_from_model(cmds):
             pend = dict(pend, new=True)
         elif c == 'lib_delete':
             pend = dict(pend, deleted=True)
-        elif c in ('lib_rollback', 'lib_close', 'lib_load', 'lib_begin_block'):
+        elif c in ('lib_rollback', 'lib_close', 'lib_load', 'lib_load_ctx', 'lib_load_ctx_engine_first', 'lib_begin_block'):
             pend = dict(new=False, dirty=False, deleted=False)
         outcome = ['error'] if c in failing or c == 'lib_commit' else ['ok', 'error'] if c == 'lib_begin_block' else ['ok']
         out.append(dict(cmd=c, outcome=outcome, pending=dict(pend), pending_any=(c == 'lib_begin_block')))
